@@ -1014,6 +1014,15 @@ func (x *Exec) specCall(env *SpecEnv, c ECall) SpecVal {
 			return SpecVal{T: Gt(v, x.d.Const("H0!$top", SInt))}
 		}
 		return SpecVal{T: Gt(v, x.top(env.old))}
+	case "mark":
+		// mark(x): always true; a state-independent term to trigger on
+		// (forall m :: withtrig(mark(m), ...) fires for every m whose mark
+		// occurs in the query, e.g. through wf(m))
+		v := x.specTerm(env, c.Args[0])
+		mk := x.d.Fun("mark", []Sort{SInt}, SBool)
+		xv := Term{"x!mk", SInt}
+		x.d.Axiom(Forall([]Term{xv}, mk(xv), []Term{mk(xv)}))
+		return SpecVal{T: mk(v)}
 	case "backing":
 		// the backing array (an object) of a slice
 		v := x.specTerm(env, c.Args[0])
@@ -1864,8 +1873,7 @@ func (x *Exec) exitChecks(cfg *Config, f *Frame, res []Val) {
 			x.obligeInv(cfg, env, e.E, "post", "", x.clauseProps(e, nil), f.block.Instrs[f.idx].Pos(), 1)
 			continue
 		}
-		t := x.specBool(env, e.E)
-		x.oblige(cfg, "post", x.clauseLabel(e), t, x.clauseProps(e, nil), f.block.Instrs[f.idx].Pos())
+		x.obligeParts(cfg, env, "post", x.clauseLabel(e), e.E, x.clauseProps(e, nil), f.block.Instrs[f.idx].Pos())
 	}
 	x.frameChecks(cfg, env)
 	x.exitPCs = append(x.exitPCs, And(cfg.st.pc...))
